@@ -641,12 +641,31 @@ def norm(args):
     return re.sub(r'0x[0-9a-f]+', 'P', args).rstrip(')')
 
 
+def quiet_pkg(ctx):
+    """A private copy of the modules the worker imports.  importlib re-lists a
+    sys.path directory whose mtime changes while the process runs; /verif changes
+    all the time (other checks, lock files), which shifts syscall ordinals between
+    the listing run and the injected runs."""
+    pkg = os.path.join(ctx.tmp, 'quietpkg')
+    if not os.path.isdir(pkg):
+        os.makedirs(os.path.join(pkg, 'props'))
+        shutil.copytree(os.path.join(core.VERIF, 'vlib'), os.path.join(pkg, 'vlib'),
+                        ignore=shutil.ignore_patterns('__pycache__'))
+        for fn in ('__init__.py', 'c23.py'):
+            shutil.copy(os.path.join(core.VERIF, 'props', fn), os.path.join(pkg, 'props', fn))
+    return pkg
+
+
 def worker(ctx, seed, variant, target, strace=None, timeout=120):
     env = build.child_env('plain')
+    pkg = quiet_pkg(ctx)
+    env['PYTHONPATH'] = os.pathsep.join(
+        [x if os.path.abspath(x) != os.path.abspath(core.VERIF) else pkg
+         for x in env['PYTHONPATH'].split(os.pathsep)])
     cmd = (strace or []) + build.python_cmd('plain') + ['-c', WORKER, str(seed), str(variant),
                                                          target]
     try:
-        p = subprocess.run(cmd, env=env, cwd=core.VERIF, stdout=subprocess.PIPE,
+        p = subprocess.run(cmd, env=env, cwd=pkg, stdout=subprocess.PIPE,
                            stderr=subprocess.PIPE, timeout=timeout)
     except subprocess.TimeoutExpired:
         return None
@@ -711,8 +730,46 @@ def strace_seed(ctx, seed, exe, only=None):
         points = [q for q in points if q['name'] not in ('mmap', 'munmap', 'brk', 'madvise',
                                                          'mremap')]
 
+    # Ordinals are re-measured with the same '-e trace=NAME' filter the injected runs use
+    # (a fully traced process runs much slower, and start-up makes a few more or fewer
+    # stat/open calls depending on timing): per syscall name one filtered listing run, whose
+    # calls are matched to the window entries by their arguments.
+    def remeasure(name):
+        p, target, log, pd = run_point('filt_' + name, ['-e', 'trace=' + name])
+        if p is None or b'DONE' not in p.stdout:
+            return
+        got = [norm(a).replace(pd, 'DIR') for nm, a in parse_trace(log) if nm == name]
+        mine = [q for q in points if q['name'] == name]
+        # the window entries are the last calls of that name before the end, in order
+        j = len(got)
+        for q in reversed(mine):
+            k = j - 1
+            while k >= 0 and not (got[k].startswith(q['args']) or q['args'].startswith(got[k])):
+                k -= 1
+            if k < 0:
+                return
+            q['ordinal_filtered'] = k + 1
+            j = k
+    with cf.ThreadPoolExecutor(8) as ex:
+        list(ex.map(remeasure, sorted(set(q['name'] for q in points))))
+    for q in points:
+        if 'ordinal_filtered' in q:
+            if q['ordinal_filtered'] != q['ordinal']:
+                ctx.count('strace_ordinals_shifted_by_filtering')
+            q['ordinal'] = q['ordinal_filtered']
+
     def one(q):
-        tag = 'p%d' % q['pos']
+        # the ordinal of a syscall counted from process start can shift by one between
+        # runs (importlib re-lists a sys.path directory whose mtime just changed): a
+        # misaligned run says nothing about cffi and is repeated
+        for attempt in range(4):
+            r = one_try(q, attempt)
+            if r[1] == 'aligned':
+                break
+        return r
+
+    def one_try(q, attempt):
+        tag = 'p%d_%d' % (q['pos'], attempt)
         p, target, log, pd = run_point(tag, [
             '-e', 'trace=' + q['name'],
             '-e', 'inject=%s:signal=KILL:when=%d' % (q['name'], q['ordinal'])])
@@ -728,13 +785,16 @@ def strace_seed(ctx, seed, exe, only=None):
         now = rd(target)
         state = ('old' if now == O else 'new' if now == N else 'missing' if now is None else
                  'partial' if N.startswith(now) or O.startswith(now) else 'other')
+        if not aligned and os.environ.get('VERIF_C23_DEBUG'):
+            sys.stderr.write('MISALIGNED %r killed=%r ngot=%d got=%r done=%r\n' % (
+                q, killed, len(got), g[:200], b'DONE' in p.stdout))
         return q, ('aligned' if aligned else 'misaligned'), state, sorted(os.listdir(pd))
 
     with cf.ThreadPoolExecutor(8) as ex:
         results = list(ex.map(one, points))
     for q, how, state, listing in results:
         if how != 'aligned':
-            ctx.count('strace_runs_' + how)
+            ctx.count('strace_points_never_aligned_' + how)
             continue
         ctx.case(('strace', seed, q['pos']), sample={'seed': seed, 'kill_on_entry_of': q['name'],
                                                      'args': q['args'][:80], 'target': state})
